@@ -192,6 +192,25 @@ class Summary:
         env = {}
         simple = re.compile(r"^[A-Za-z_][A-Za-z_0-9]*$")
         for ev in path.events:
+            if ev.kind == "let" and ev.b is not None and re.match(r"^\(\w+(,\w+)+\)$", ev.a or "") and ev.b.startswith("(") and ev.b.endswith(")"):
+                # `let (a, b) = (x, y);` binds component-wise
+                names_ = ev.a[1:-1].split(",")
+                parts, depth, cur = [], 0, ""
+                for ch in ev.b[1:-1]:
+                    if ch in "([{":
+                        depth += 1
+                    elif ch in ")]}":
+                        depth -= 1
+                    if ch == "," and depth == 0:
+                        parts.append(cur)
+                        cur = ""
+                    else:
+                        cur += ch
+                parts.append(cur)
+                if len(parts) == len(names_):
+                    for n_, v_ in zip(names_, parts):
+                        env[n_] = H.subst_lets(v_, env)
+                continue
             if ev.kind == "let" and simple.match(ev.a or "") and ev.b is not None:
                 pat = (ev.node or {}).get("pat") or {}
                 if pat.get("mut") and "(" in ev.b:
